@@ -22,6 +22,8 @@ CHECKS = {
          "Held on generated setter sequences with boundary and near-standard sizes; tolerance half a twip and the documented 1 mm recognition tolerance."),
  "C13": ("exploration", "id-resolution monitor (styles, numbering, notes) over saved outputs + ledger of API-created styles", "3.1, 4/C13",
          "Held on explored histories mixing style API calls, styled content, lists, notes, saves and reopen; ids resolved by an independent reader."),
+ "C14": ("exploration", "reference resolver (visited-set walk, first definer wins) compared per formatting element with GetStyleWithInheritance/ApplyStyleToXML; registry snapshot, Clone alias and scribble monitors; crash monitor for non-termination", "3.3, 4/C14",
+         "Held on generated registries: every element x definer depth 0..3 enumerated, random basedOn graphs with cycles, self-loops and missing parents; all ids resolved and compared with the reference; registry unchanged; clones independent."),
 }
 PENDING = {}
 ALL = ["C%02d" % i for i in range(1, 21)]
